@@ -442,7 +442,10 @@ func zzRunC08(r *sim.Run) {
 					w.waiters = nil
 					if better {
 						w.best = n
-						if w.cur != nil && w.cur.prev == *cur.Hash && !w.cur.tipBetter {
+						// (the clock of "abandon the round" starts only if somebody was told: a tip that
+						// comes in the instant between a notification and the monitor's re-registration
+						// reaches no waiter, here as with the real chain's one-shot waiters)
+						if w.cur != nil && w.cur.prev == *cur.Hash && !w.cur.tipBetter && len(ws) > 0 {
 							w.cur.tipBetter, w.cur.tipAt = true, time.Now()
 						}
 					}
